@@ -132,17 +132,35 @@ func unixPath(tag string) string {
 	return filepath.Join(scratchDir, fmt.Sprintf("u%d-%s-%d.sock", os.Getpid(), tag, pathCtr.Add(1)))
 }
 
-// listenAddr returns the gnet address string for a fresh listener of this configuration.
+// listenAddr returns the gnet address string for a fresh listener of this configuration. TCP/UDP listeners
+// get a port that was free a moment ago (found by binding port 0 once): with SO_REUSEPORT every event loop
+// opens its own listener from the address STRING, so ":0" would give every loop a different port.
 func (c cfg) listenAddr() string {
+	probe := func(network, host string) int {
+		if strings.HasPrefix(network, "udp") {
+			pc, err := net.ListenPacket(network, net.JoinHostPort(host, "0"))
+			if err != nil {
+				return 0
+			}
+			defer pc.Close()
+			return pc.LocalAddr().(*net.UDPAddr).Port
+		}
+		l, err := net.Listen(network, net.JoinHostPort(host, "0"))
+		if err != nil {
+			return 0
+		}
+		defer l.Close()
+		return l.Addr().(*net.TCPAddr).Port
+	}
 	switch c.Net {
 	case "tcp":
-		return "tcp://127.0.0.1:0"
+		return fmt.Sprintf("tcp://127.0.0.1:%d", probe("tcp4", "127.0.0.1"))
 	case "tcp6":
-		return "tcp6://[::1]:0"
+		return fmt.Sprintf("tcp6://[::1]:%d", probe("tcp6", "::1"))
 	case "udp":
-		return "udp://127.0.0.1:0"
+		return fmt.Sprintf("udp://127.0.0.1:%d", probe("udp4", "127.0.0.1"))
 	case "udp6":
-		return "udp6://[::1]:0"
+		return fmt.Sprintf("udp6://[::1]:%d", probe("udp6", "::1"))
 	case "unix":
 		return "unix://" + unixPath("srv")
 	}
@@ -170,6 +188,18 @@ type engineLife struct {
 
 // startServer starts gnet.Run with the monitor as handler and waits until it serves.
 func startServer(c cfg, mon *monitor) (*engineLife, error) {
+	var el *engineLife
+	var err error
+	for try := 0; try < 4; try++ {
+		el, err = startServerOnce(c, mon)
+		if err == nil || !strings.Contains(fmt.Sprint(err), "address already in use") {
+			break
+		}
+	}
+	return el, err
+}
+
+func startServerOnce(c cfg, mon *monitor) (*engineLife, error) {
 	el := &engineLife{cfg: c, mon: mon, addr: c.listenAddr(), booted: make(chan struct{}), done: make(chan struct{})}
 	mon.life = el
 	go func() {
